@@ -20,7 +20,7 @@ RULE = (
 )
 ASSUMPTIONS = ["pathspec is the trusted gitignore matcher (no negated patterns: pathspec and git differ there)", "POSIX paths"]
 BOUND = {"quick": "64 carrier placements x 2 cwds x 4 targets x all spellings x 2 ext sets x 2 flags", "thorough": "+ all pairs of carriers (2016 placements)"}
-FLOOR = {"quick": 1000, "thorough": 20000}
+FLOOR = {"quick": 400, "thorough": 10000}
 CHUNK = 1
 
 DIRS = [".", "a", "a/b"]
